@@ -63,6 +63,11 @@ impl<'a, T: Send> Future for SendFuture<'a, T> {
     let this = unsafe { self.as_mut().get_unchecked_mut() };
     let state_ptr = &this.state as *const AtomicU8;
 
+    // A handle that was itself closed rejects new operations (as `try_send` does).
+    if !this.is_registered && this.item.is_some() && this.sender.closed.load(Ordering::Relaxed) {
+      return Poll::Ready(Err(SendError::Closed));
+    }
+
     'poll_loop: loop {
       if this.is_registered {
         let st = this.state.load(Ordering::SeqCst);
@@ -210,6 +215,19 @@ impl<'a, T: Send> Future for SendBatchFuture<'a, T> {
   fn poll(mut self: Pin<&mut Self>, cx: &mut Context<'_>) -> Poll<Self::Output> {
     let this = unsafe { self.as_mut().get_unchecked_mut() };
     let state_ptr = &this.state as *const AtomicU8;
+
+    // A handle that was itself closed rejects new operations (as `try_send_batch` does).
+    if !this.is_registered
+      && this.sent == 0
+      && this.pending.is_none()
+      && this.total > 0
+      && this.sender.closed.load(Ordering::Relaxed)
+    {
+      return Poll::Ready(Err(SendBatchError {
+        sent: 0,
+        unsent: this.iter.by_ref().collect(),
+      }));
+    }
 
     'poll_loop: loop {
       if this.is_registered {
@@ -407,6 +425,16 @@ impl<'a, T: Send> Future for SendBatchMutFuture<'a, T> {
     let this = unsafe { self.as_mut().get_unchecked_mut() };
     let state_ptr = &this.state as *const AtomicU8;
 
+    // A handle that was itself closed rejects new operations (as `try_send_batch_mut` does).
+    if !this.is_registered
+      && this.sent == 0
+      && this.pending.is_none()
+      && !this.items.is_empty()
+      && this.sender.closed.load(Ordering::Relaxed)
+    {
+      return Poll::Ready(Err(SendError::Closed));
+    }
+
     'poll_loop: loop {
       if this.is_registered {
         let st = this.state.load(Ordering::SeqCst);
@@ -560,6 +588,11 @@ impl<'a, T: Send> Future for RecvBatchFuture<'a, T> {
     let state_ptr = &this.state as *const AtomicU8;
     let mut out = Vec::new();
 
+    // A handle that was itself closed rejects new operations (as `try_recv_batch` does).
+    if !this.is_registered && this.max > 0 && this.receiver.closed.load(Ordering::Relaxed) {
+      return Poll::Ready(Err(RecvError::Disconnected));
+    }
+
     if this.is_registered {
       let st = this.state.load(Ordering::SeqCst);
       if (st & 0x01) != 0 {
@@ -649,6 +682,11 @@ impl<'a, T: Send> Future for RecvBatchMutFuture<'a, T> {
     let state_ptr = &this.state as *const AtomicU8;
     let max = this.max;
 
+    // A handle that was itself closed rejects new operations (as `try_recv_batch_mut` does).
+    if !this.is_registered && max > 0 && this.receiver.closed.load(Ordering::Relaxed) {
+      return Poll::Ready(Err(RecvError::Disconnected));
+    }
+
     if this.is_registered {
       let st = this.state.load(Ordering::SeqCst);
       if (st & 0x01) != 0 {
@@ -729,6 +767,11 @@ impl<'a, T: Send> Future for RecvFuture<'a, T> {
     // PhantomPinned makes RecvFuture !Unpin, so get_unchecked_mut is required.
     let this = unsafe { self.as_mut().get_unchecked_mut() };
     let state_ptr = &this.state as *const AtomicU8;
+
+    // A handle that was itself closed rejects new operations (as `try_recv` does).
+    if !this.is_registered && this.receiver.closed.load(Ordering::Relaxed) {
+      return Poll::Ready(Err(RecvError::Disconnected));
+    }
 
     if this.is_registered {
       let st = this.state.load(Ordering::SeqCst);
